@@ -225,3 +225,45 @@ prop("C13",
      "Byte-identical generated code for two spellings and accept/reject agreement on all models (relational over all inputs); the grammar of the "
      "type-string parser itself; that validation normalises nested optional/vector trees the same way for both spellings (observed, not decided).",
      COMMON_ASSUME + ["refs/aliases.json transcribes the alias rows and tags of docs/*/language.md"])
+
+
+# Clauses added after the second round of independently seeded changes (one sentence per rule).
+_ADDED = {
+    "C01": " (TS1) the emitted IsTriviallySerializable<Record> trait — which switches C++ to a raw memcpy of the object — requires standard layout, every field "
+           "trivially serializable and sizeof(T) equal to the sum of all field sizes, unconditionally; (CB3) CodedOutputStream never hands bytes to the stream "
+           "while earlier bytes sit in its staging buffer (every direct stream write is preceded by FlushBuffer on its path).",
+    "C02": " (PN2) the Python UnionConverter selects the case of an untagged union by the exact JSON type, never by isinstance (bool is a subclass of int); "
+           "(O3) every quoted name position of an NDJSON generator template receives the model spelling (.Name/.Symbol/.Tag), numpy field positions the identifier.",
+    "C03": " (TS1) see C01: padding bytes of a C++ record never reach the wire; (O3) JSON names are the model's names in both NDJSON generators.",
+    "C04": " (PH2) the Python NDJSON writer serialises the header with insertion order (no sort_keys / hooks), so the schema text equals the literal the C++ reader "
+           "compares with; (CB3) the C++ output stream keeps the order header → payload.",
+    "C05": " (EV7) the emitted previous_schemas_ table has exactly one entry per listed version under every outcome of its tests and is indexed by the version loop's "
+           "index; (EV9) every piece of change data a definition comparer computes influences its decision between returning the change and returning nil.",
+    "C06": " (EV9) see C05: no 'unchanged' verdict while recorded differences exist; (NP1) optional pointer fields are dereferenced in the evolution analyser only "
+           "where a nil test, an equal-nil-ness test or a model predicate establishes them.",
+    "C07": " (S2) inside every emitted method that compares the state variable, no `return` is emitted in front of the first emission mentioning the state: no fast "
+           "path around the guard.",
+    "C08": " (NP1) the back ends dereference optional model fields (Length, Name, Dimensions) only where they are established non-nil; (N6) python WriteDocstring pads a "
+           "leading/trailing quote under that test alone and escapes backslashes and embedded delimiters before writing the literal.",
+    "C09": " (V7) every ValidationPass starts its traversal at the Environment itself (or loops over all namespaces), so imported packages are checked by every rule; "
+           "(R1) resolveType stores the resolved definition only behind the arity comparison of type arguments and type parameters; (X1) no error-free return of "
+           "validatePackage precedes the loop over previous versions, and every import becomes a reference of the importing namespace on every loop path.",
+    "C10": " (P6b) a `for {}` loop around Decoder.Decode leaves the loop on every path with a non-nil error (yaml.v3 keeps returning the same error); (NP1) optional "
+           "pointer fields are dereferenced in the front end only where established non-nil.",
+    "C11": " (X1, V7) the previous versions and the imported packages are really validated: no success return before the version loop, passes walk the whole environment.",
+    "C13": " (Q6) ParseYamlInDir accumulates every slice field the YAML unmarshaller fills (TypeDefinitions, Protocols) over the files with append.",
+    "C14": " (TS1) see C01; (G1) the MATLAB reversal of fixed-array extents is mandatory, not merely permitted; (G5) the extent order agrees between the MATLAB "
+           "serializer argument and the default value.",
+    "C15": " (PH1) the header comparisons are whole-operand comparisons (the entire parsed schema, not a projection of it); (PH2) key order of the written header.",
+    "C16": " (CB4) every loop of CodedInputStream that refills the buffer calls a refill routine that can throw at the end of the stream; (SR4) a void batch reader "
+           "never returns with the block count decremented to zero unless the zero was read from the stream.",
+    "C17": " (B4) the emitted fallback batch reader truncates `values` to the items read before reporting the end; (SR4) count-zero contract of ReadBlocksIntoVector.",
+    "C18": " (I1) the already-collected shortcut returns the entry of the collected map; (X1) every import is appended to References on every path of the import loop.",
+    "C19": " (X3, re-implemented) the parenthesisation decision of each emitter is evaluated over the finite domain parent operator x left/right operand shape (180 shapes, "
+           "helpers and closures followed) against the target language's precedence/associativity (refs/operators.json); (X7) `e as T` is printed as an explicit "
+           "conversion on every path of the TypeConversionExpression case; (X8) the MATLAB conversion wrapper names the class of the target primitive.",
+    "C20": " (T7) the map arguments generateImpl receives from the watcher are never mutated by it or by the module functions they are handed to.",
+}
+for _k, _v in _ADDED.items():
+    if _k in PROPS:
+        PROPS[_k]["explanation"] += _v
